@@ -134,10 +134,12 @@ EffEnd(d) == Max(d.start, Min(d.end, NbEBands))
 NoiseDraws(d, lm) == d.ch * (EB(EffEnd(d)) - EB(d.start)) * P2(lm)
 
 \* a frame that is concealed (celt_decode_lost).  lpiNew = what celt_plc_pitch_search returns (used only when ld = 0, pitch branch)
-LoseFrame(d, lm, lpiNew) ==
+\* (rngNew: the seed the noise branch leaves behind - LoseFrame computes it; the exhaustive runs abstract it)
+LoseFrameR(d, lm, lpiNew, rngNew) ==
   IF NoiseBased(d)
-  THEN [d EXCEPT !.rng = LcgN(d.rng, NoiseDraws(d, lm)), !.fold = 0, !.skip = 1, !.ld = Min(LossSat, d.ld + P2(lm))]
+  THEN [d EXCEPT !.rng = rngNew, !.fold = 0, !.skip = 1, !.ld = Min(LossSat, d.ld + P2(lm))]
   ELSE [d EXCEPT !.lpi = IF d.ld = 0 THEN lpiNew ELSE d.lpi, !.fold = 1, !.ld = Min(LossSat, d.ld + P2(lm))]
+LoseFrame(d, lm, lpiNew) == LoseFrameR(d, lm, lpiNew, IF NoiseBased(d) THEN LcgN(d.rng, NoiseDraws(d, lm)) ELSE d.rng)
 LoseFoldRun(d) == NoiseBased(d) /\ d.fold = 1                            \* 657-659
 \* ghosts: the fade of the pitch concealment (697-711: Q15ONE first, .8 on the following frames), in Q15; the decay of the noise
 \* concealment (662) in half log2-units (1.5 first, .5 later)
